@@ -3,6 +3,8 @@ package main
 import (
 	"bytes"
 	"fmt"
+	"github.com/ChrisTrenkamp/xsel/node"
+	"github.com/ChrisTrenkamp/xsel/store"
 	"os"
 	"os/exec"
 	"reflect"
@@ -99,6 +101,37 @@ func fuzzOne(entry, input, extra string) (out string) {
 			}
 			if xerr != nil && strings.Contains(xerr.Error(), "xpath query panic") {
 				return "VIOLATION internal panic error for a well-typed query: " + xerr.Error()
+			}
+		}
+		// the same query over a caller-implemented Cursor that is a struct VALUE with a slice inside (not comparable with ==)
+		// and builds a fresh value on every navigation
+		fuzzTick++
+		if fuzzTick%4 == 0 {
+			var walk func(c store.Cursor, at []int) string
+			walk = func(c store.Cursor, at []int) string {
+				res, xerr := xsel.Exec(c, &g, settings...)
+				if xerr == nil && res == nil {
+					return "VIOLATION Exec over a caller-implemented Cursor returned a nil result and a nil error"
+				}
+				if xerr != nil && strings.Contains(xerr.Error(), "xpath query panic") {
+					return "VIOLATION internal panic error for a well-typed query over a caller-implemented Cursor (a struct value that == cannot compare): " + xerr.Error()
+				}
+				if len(at) < 3 {
+					for i, k := range c.Children() {
+						if m := walk(k, append(append([]int{}, at...), i)); m != "OK" {
+							return m
+						}
+					}
+					for _, k := range c.Attributes() {
+						if m := walk(k, at); m != "OK" {
+							return m
+						}
+					}
+				}
+				return "OK"
+			}
+			if m := walk(valueCursor{c, nil}, nil); m != "OK" {
+				return m
 			}
 		}
 		return "OK"
@@ -266,6 +299,15 @@ func famC15(rn *Runner) {
 					e = call("string-length", lit(strings.Repeat(pick(r, []string{"a", "\u00e9", "ab "}), 70+r.Intn(4000))))
 				}
 			case 0:
+				if r.Chance(1, 4) {
+					// comparisons in which one node-set is EMPTY (there is no first node to take)
+					none := &EPath{Abs: true, Steps: []*Stp{{Axis: "descendant", Test: NodeTest{Kind: "name", Local: "nosuchelement"}}}}
+					some := &EPath{Abs: true, Steps: []*Stp{{Axis: "descendant-or-self", Test: NodeTest{Kind: "node"}, Abbrev: true}, {Axis: pick(r, []string{"child", "attribute"}), Test: NodeTest{Kind: "any"}, Abbrev: true}}}
+					op := pick(r, []string{"!=", "=", "<", "<=", ">", ">="})
+					e = pick(r, []Expr{bin(op, some, none), bin(op, none, some), bin(op, none, none),
+						&EPath{Abs: true, Steps: []*Stp{{Axis: "descendant", Test: NodeTest{Kind: "any"}, Preds: []Expr{bin(op, &EPath{Steps: []*Stp{{Axis: "self", Test: NodeTest{Kind: "node"}, Abbrev: true}}}, none)}}}}})
+					break
+				}
 				ax := pick(r, allAxes)
 				e = &EPath{Steps: []*Stp{{Axis: ax, Test: g.NodeTest(ax)}, g.Step(1, 3)}}
 			case 1:
@@ -362,4 +404,36 @@ func famC15(rn *Runner) {
 		}
 	}
 	rn.DropDoc(d)
+}
+
+var fuzzTick int
+
+// valueCursor: a caller's Cursor implemented as a struct value holding a slice (values of this type cannot be
+// compared with ==; doing so panics at run time)
+type valueCursor struct {
+	in   store.Cursor
+	path []int
+}
+
+func (v valueCursor) wrap(l []store.Cursor) []store.Cursor {
+	if len(l) == 0 {
+		return nil
+	}
+	out := make([]store.Cursor, len(l))
+	for i, c := range l {
+		out[i] = valueCursor{c, append(append([]int{}, v.path...), i)}
+	}
+	return out
+}
+func (v valueCursor) Pos() int                   { return v.in.Pos() * 10 }
+func (v valueCursor) Node() node.Node            { return v.in.Node() }
+func (v valueCursor) Namespaces() []store.Cursor { return v.wrap(v.in.Namespaces()) }
+func (v valueCursor) Attributes() []store.Cursor { return v.wrap(v.in.Attributes()) }
+func (v valueCursor) Children() []store.Cursor   { return v.wrap(v.in.Children()) }
+func (v valueCursor) Parent() store.Cursor {
+	p := v.in.Parent()
+	if len(v.path) == 0 {
+		return valueCursor{p, nil}
+	}
+	return valueCursor{p, v.path[:len(v.path)-1]}
 }
